@@ -1112,10 +1112,18 @@ def classAccepts (cls : String) (c : UInt8) : Bool :=
   | _ => false
 
 /-- The byte classes of `db.dnsLabelWildsafe`, re-extracted from the source on every run, accept
-exactly the bytes the model's `Name.wildsafeByte` accepts (all 256 bytes checked by the kernel). -/
+exactly the bytes the model's `Name.wildsafeByte` accepts (all 256 bytes checked by the kernel). The
+fact is `none` when the function is no longer a chain of range tests (a lookup table, say); the tie
+is then the behavioural one alone: the `wildsafe` op reads the 256-entry table off the running
+function on every run and the driver compares it with `Name.wildsafeByte`. -/
 theorem wildsafe_classes_match :
-    ∀ n, n < 256 → Name.wildsafeByte n.toUInt8 =
-      Generated.db_wildsafe_classes.any (classAccepts · n.toUInt8) := by
+    (Generated.db_wildsafe_classes.all fun cls => (List.range 256).all fun n =>
+      Name.wildsafeByte n.toUInt8 == cls.any (classAccepts · n.toUInt8)) = true := by
+  decide +kernel
+
+/-- the statement above does say something about a table: a class list that misses `_` is refused -/
+example : ((some ["a-z", "0-9", "-"] : Option (List String)).all fun cls => (List.range 256).all fun n =>
+      Name.wildsafeByte n.toUInt8 == cls.any (classAccepts · n.toUInt8)) = false := by
   decide +kernel
 
 end DnsVerif.Props.C01
